@@ -146,6 +146,7 @@ def mc_cfg(name, strict, verfirst):
     return q
 
 
+DTOR = [("adder", 2, "2.1"), ("summer", 2, "1.2"), ("maxer", 1, "1.2"), ("cetl", 2, "3")]
 TEAR = [("maxer", 2, 1), ("miner", -2, 1), ("maxer", 1, -cc.EXT + 1), ("miner", -1, 2)]
 
 
@@ -170,7 +171,8 @@ def run(pid, tier, seed, replay=None):
     if not replay:
         sfx = "_q" if quick else ""
         mcs = [("adder_summer", "Counters_add%s.cfg" % sfx), ("maxer_miner", "Counters_cmp%s.cfg" % sfx), ("cetl_etl", "Counters_raw%s.cfg" % sfx),
-               ("split_reads", "Counters_split%s.cfg" % sfx), ("extreme_every_value", "Counters_cmp_ext.cfg"), ("torn_period_switch", "Counters_torn.cfg")]
+               ("split_reads", "Counters_split%s.cfg" % sfx), ("split_destructor", "Counters_dtor.cfg"), ("extreme_every_value", "Counters_cmp_ext.cfg"),
+               ("torn_period_switch", "Counters_torn.cfg")]
         pool = concurrent.futures.ThreadPoolExecutor(max_workers=len(mcs))
         for name, cfg in mcs:
             futures[name] = (cfg, pool.submit(vlib.tlc, MC_TLA, mc_cfg(cfg, strict, verfirst), cache=True, deadlock=False, timeout=2400, heap="8g"))
@@ -238,11 +240,11 @@ def run(pid, tier, seed, replay=None):
                 V.sample({"kind": hists[j][0], "history": hists[j][1], "first_events": lines[j][1:6]})
 
     # ------------------------------------------------------------------ 2. concurrent reads under vsched, L1 monitor
-    cexecs, stale_seen, creported = [], False, {}
+    cexecs, stale_seen, creported, dtor_bad = [], False, {}, False
     if not replay or json.load(open(replay)).get("layer") == "conc":
         if replay:
             rp = json.load(open(replay))
-            progs = [] if rp.get("strategy") == "tear" else [(rp["params"]["kind"], rp["params"]["prog"], rp["params"].get("pre", ""), int(rp["params"]["nr"]), (rp["seed"], rp["seed"] + 1), rp["strategy"], rp.get("script"))]
+            progs = [] if rp.get("scn", "conc") != "conc" or rp.get("strategy") == "tear" else [(rp["params"]["kind"], rp["params"]["prog"], rp["params"].get("pre", ""), int(rp["params"]["nr"]), (rp["seed"], rp["seed"] + 1), rp["strategy"], rp.get("script"))]
         else:
             ns = 10 if quick else 150
             progs = [(k, pr, pre, nr, (seed * 1000 + 1, seed * 1000 + 1 + ns), "mix", None) for k, pr, pre, nr in CONC]
@@ -260,11 +262,26 @@ def run(pid, tier, seed, replay=None):
             cexecs += ex
             for kk, v in s.items():
                 cstat[kk] = cstat.get(kk, 0) + v
+        def dtor_again(h0):
+            pb = h0["strategy"] == "pb"
+            extra = ["--script", ",".join(map(str, h0.get("script", []))), "--max-execs", "1", "--pb-bound", "2"] if pb else None
+            return cc.run_dtor(h0["params"]["kind"], int(h0["params"]["nw"]), str(h0["params"]["prog"]), (h0["seed"], h0["seed"] + 1), "pb" if pb else "mix", "C19_dtor_re", extra)[0]
+
         if replay:
             if rp.get("strategy") == "tear":
                 cexecs = [cc.run_tear(rp["params"]["kind"], int(rp["params"]["old"]), int(rp["params"]["nw"]), "C19_tear")]
+            elif rp.get("scn") == "dtor":
+                cexecs = dtor_again(rp)
         else:
             cexecs += [cc.run_tear(k, o, n, "C19_tear") for k, o, n in TEAR]
+            # one counter destroyed WHILE another of the same type is constructed / counted into / read
+            for i, (k, nw, pr) in enumerate(DTOR):
+                ex, sd = cc.run_dtor(k, nw, pr, (1, 2), "pb", "C19_dtor%d" % i, ["--pb-bound", "1", "--max-execs", "400" if quick else "4000"])
+                ex2, sd2 = cc.run_dtor(k, nw, pr, (seed * 1000 + 1, seed * 1000 + (7 if quick else 120)), "mix", "C19_dtorm%d" % i)
+                cexecs += ex + ex2
+                for dd in (sd, sd2):
+                    for kk, v in dd.items():
+                        cstat[kk] = cstat.get(kk, 0) + v
         mlines = [cc.mon_lines(ex) for ex in cexecs]
         acc, bad, _, st = cc.judge(MON_TLA, MON_CFG, mlines, "C19_mon")
         V.cov["traces_validated_against_impl"] += acc
@@ -276,14 +293,17 @@ def run(pid, tier, seed, replay=None):
             clause, ln = sorted(items, key=lambda x: x[1])[0]
             if h0["scn"] == "tear" and clause == "ConcurrentReadBounds_TornFirstCountOfPeriod":
                 stale_seen = True
-            creported[clause] = creported.get(clause, 0) + 1
-            if creported[clause] > 1 or len(creported) > 3:
+            ckey = (clause, h0["scn"])
+            creported[ckey] = creported.get(ckey, 0) + 1
+            if creported[ckey] > 1 or len(creported) > 4:
                 continue
             tear = h0["scn"] == "tear"
-            key = {"layer": "conc", "params": h0["params"], "seed": h0["seed"], "strategy": "tear" if tear else h0["strategy"], "script": h0.get("script", []), "clause": clause}
+            key = {"layer": "conc", "scn": h0["scn"], "params": h0["params"], "seed": h0["seed"], "strategy": "tear" if tear else h0["strategy"], "script": h0.get("script", []), "clause": clause}
             if not replay:
                 if tear:
                     ex2 = [cc.run_tear(h0["params"]["kind"], int(h0["params"]["old"]), int(h0["params"]["nw"]), "C19_tear_re")]
+                elif h0["scn"] == "dtor":
+                    ex2 = dtor_again(h0)
                 else:
                     extra = ["--script", ",".join(map(str, key["script"])), "--max-execs", "1", "--pb-bound", "2"] if h0["strategy"] == "pb" else None
                     ex2, _ = cc.run_conc(h0["params"]["kind"], h0["params"]["prog"], h0["params"].get("pre", ""), int(h0["params"]["nr"]), (h0["seed"], h0["seed"] + 1),
@@ -295,6 +315,10 @@ def run(pid, tier, seed, replay=None):
             if tear:
                 V.violation("%s: %s %s (the counting thread is pre-empted between the plain stores of its first count in a new period - single-stepped -, a reader thread calls value() in between) previous period={%s} current period={%s} observed=%s" % (
                     clause, h0["params"]["kind"], DESCR.get(clause, clause), h0["params"]["old"], h0["params"]["nw"], describe_line(mlines[j][ln - 1])), rp)
+            elif h0["scn"] == "dtor":
+                dtor_bad = True
+                V.violation("%s: %s %s (thread A destroys a counter WHILE thread B constructs another counter of the same type, counts into it and reads it; under vsched) prog=%s dead-thread slots=%s strategy=%s seed=%s observed=%s" % (
+                    clause, h0["params"]["kind"], DESCR.get(clause, clause), h0["params"]["prog"], h0["params"]["nw"], h0["strategy"], h0["seed"], describe_line(mlines[j][ln - 1])), rp)
             else:
                 V.violation("%s: %s %s (counting threads + reader under vsched) prog=%s pre=%s seed=%s observed=%s" % (
                     clause, h0["params"]["kind"], DESCR.get(clause, clause), h0["params"]["prog"], h0["params"].get("pre", ""), h0["seed"], describe_line(mlines[j][ln - 1])), rp)
@@ -343,6 +367,16 @@ def run(pid, tier, seed, replay=None):
         if (not r.ok) != verfirst or stale_seen != verfirst:
             V.drift += 1
             log("SPEC-DRIFT component=counters period switch: model variant VerFirst=%s, model counterexample=%s, stale value observed on the pre-empted real thread=%s" % (verfirst, not r.ok, stale_seen))
+        # a counter corrupted by the concurrent destruction of another one: does the model with the other order of the
+        # destructor's steps (instance id released before the clearing walk) explain it?
+        if dtor_bad:
+            q = os.path.join(vlib.BUILD, "gen", "cfg_C19", "Counters_dtor_idfirst.cfg")
+            os.makedirs(os.path.dirname(q), exist_ok=True)
+            open(q, "w").write(open(mc_cfg("Counters_dtor.cfg", strict, verfirst)).read().replace("IdFirst = FALSE", "IdFirst = TRUE"))
+            r = vlib.tlc(MC_TLA, q, cache=True, deadlock=False, timeout=1200, heap="4g")
+            V.add_tlc("split_destructor_id_released_first", r)
+            V.extra["split_destructor_variant"] = {"IdFirst": True, "model_counterexample": r.violation, "events": re.findall(r'op \|-> "(\w+)"', r.error_trace)}
+            log("NOTE: model variant IdFirst=TRUE (id released before the clearing walk): TLC %s" % ("violates " + str(r.violation) if not r.ok else "has no counterexample"))
         V.cov["exhaustive"] = True
         pool.shutdown()
     V.assumptions += [
